@@ -4,6 +4,8 @@ import HcipyVerif.Lemmas.NearFieldExec
 import HcipyVerif.Lemmas.NearFieldGRat
 import HcipyVerif.Lemmas.NearFieldMatrixExec
 import HcipyVerif.Lemmas.NearFieldTensor
+import HcipyVerif.Lemmas.NearFieldAbstract
+import HcipyVerif.Lemmas.NearFieldScalar
 
 /-!
 # C04 — near-field propagators are linear, passive, adjoint-backward and additive
@@ -30,123 +32,6 @@ namespace HcipyVerif.NearField
 
 variable {ι μ τ : Type*} [Fintype ι] [Fintype μ] [Fintype τ] [DecidableEq μ]
 
-/-! ## every regime: linear, backward = adjoint -/
-
-/-- The filter is additive and homogeneous, whatever the transfer function (either branch). -/
-theorem filter_linear (P : FourierPair μ) (e : ι → μ) (D : μ → ℂ) (a b : ℂ) (x y : ι → ℂ) :
-    filter P e D (a • x + b • y) = a • filter P e D x + b • filter P e D y := by
-  unfold filter
-  rw [pad_add, pad_smul, pad_smul, map_add, map_smul, map_smul, mulD_add, mulD_smul, mulD_smul,
-    map_add, map_smul, map_smul, crop_add, crop_smul, crop_smul]
-
-/-- `backward` is exactly the adjoint of `forward`: `⟨y, T_D x⟩ = ⟨T_{conj D} y, x⟩`, for every transfer
-function (transfer-function branch or impulse-response branch), every padding. -/
-theorem filter_adjoint (P : FourierPair μ) (e : ι → μ) (D : μ → ℂ) (x y : ι → ℂ) :
-    ip y (filter P e D x) = ip (filterBackward P e D y) x := by
-  have hc : (P.c : ℂ) ≠ 0 := by exact_mod_cast P.c_pos.ne'
-  unfold filterBackward filter
-  rw [← ip_pad_left, P.ip_Finv_right, ip_mulD_right, P.adj, ← mul_assoc, inv_mul_cancel₀ hc, one_mul,
-    ip_pad_right]
-
-/-- The same with the grid weight `w` of a regular grid in the inner products. -/
-theorem filter_adjoint_weighted (P : FourierPair μ) (e : ι → μ) (D : μ → ℂ) (w : ℝ) (x y : ι → ℂ) :
-    (w : ℂ) * ip y (filter P e D x) = (w : ℂ) * ip (filterBackward P e D y) x := by
-  rw [filter_adjoint]
-
-/-- Backward of backward is forward (the adjoint is an involution on transfer functions). -/
-theorem filterBackward_filterBackward (P : FourierPair μ) (e : ι → μ) (D : μ → ℂ) :
-    filterBackward P e (fun m => conj (D m)) = filter P e D := by
-  funext x
-  unfold filterBackward
-  simp only [Complex.conj_conj]
-
-/-- Tensor (Jones-vector / Jones-matrix) fields are filtered component by component. -/
-noncomputable def filterT (P : FourierPair μ) (e : ι → μ) (D : μ → ℂ) (x : τ → ι → ℂ) : τ → ι → ℂ :=
-  fun t => filter P e D (x t)
-
-theorem filterT_adjoint (P : FourierPair μ) (e : ι → μ) (D : μ → ℂ) (x y : τ → ι → ℂ) :
-    ∑ t, ip (y t) (filterT P e D x t) = ∑ t, ip (filterT P e (fun m => conj (D m)) y t) (x t) := by
-  apply Finset.sum_congr rfl
-  intro t _
-  exact filter_adjoint P e D (x t) (y t)
-
-/-! ## passive: `|D| ≤ 1` ⇒ power never increases -/
-
-/-- `(∀ k, |D k| ≤ 1) → ‖T_D x‖² ≤ ‖x‖²` with `P` an isometric embedding (`e` injective) and `F` unitary up
-to the scale `c`. -/
-theorem power_nonincreasing (P : FourierPair μ) {e : ι → μ} (he : Function.Injective e) {D : μ → ℂ}
-    (hD : ∀ m, ‖D m‖ ≤ 1) (x : ι → ℂ) : nsq (filter P e D x) ≤ nsq x := by
-  unfold filter
-  calc nsq (crop e (P.Finv (mulD D (P.F (pad e x)))))
-      ≤ nsq (P.Finv (mulD D (P.F (pad e x)))) := nsq_crop_le he _
-    _ = P.c⁻¹ * nsq (mulD D (P.F (pad e x))) := P.nsq_Finv _
-    _ ≤ P.c⁻¹ * nsq (P.F (pad e x)) :=
-        mul_le_mul_of_nonneg_left (nsq_mulD_le hD _) (inv_nonneg.mpr P.c_pos.le)
-    _ = P.c⁻¹ * (P.c * nsq (pad e x)) := by rw [P.nsq_F]
-    _ = nsq x := by rw [← mul_assoc, inv_mul_cancel₀ P.c_pos.ne', one_mul, nsq_pad he]
-
-theorem power_nonincreasing_tensor (P : FourierPair μ) {e : ι → μ} (he : Function.Injective e) {D : μ → ℂ}
-    (hD : ∀ m, ‖D m‖ ≤ 1) (x : τ → ι → ℂ) : ∑ t, nsq (filterT P e D x t) ≤ ∑ t, nsq (x t) :=
-  Finset.sum_le_sum fun t _ => power_nonincreasing P he hD (x t)
-
-/-- The sub-pixel average of numbers of modulus ≤ 1 (in particular unimodular ones) has modulus ≤ 1. -/
-theorem mean_unimodular_le_one {σ : Type*} (S : Finset σ) (f : σ → ℂ) (hf : ∀ s ∈ S, ‖f s‖ = 1) :
-    ‖meanOver S f‖ ≤ 1 :=
-  norm_meanOver_le_one S f fun s hs => (hf s hs).le
-
-/-- Fresnel transfer function, oversampled: modulus ≤ 1 at every internal frequency, for every distance,
-wavenumber, and set of sub-sample frequencies. -/
-theorem fresnel_oversampled_norm_le_one {σ : Type*} (S : Finset σ) (k z : ℝ) (kx ky : σ → ℝ) :
-    ‖meanOver S (fun s => fresnelD k z (kx s) (ky s))‖ ≤ 1 :=
-  mean_unimodular_le_one S _ fun s _ => norm_fresnelD k z (kx s) (ky s)
-
-/-- Fresnel propagation never increases power (any padding, any oversampling, either sign of `z`). -/
-theorem fresnel_power_nonincreasing (P : FourierPair μ) {e : ι → μ} (he : Function.Injective e)
-    {σ : Type*} (S : μ → Finset σ) (k z : ℝ) (kx ky : μ → σ → ℝ) (x : ι → ℂ) :
-    nsq (filter P e (fun m => meanOver (S m) (fun s => fresnelD k z (kx m s) (ky m s))) x) ≤ nsq x :=
-  power_nonincreasing P he (fun m => fresnel_oversampled_norm_le_one (S m) k z (kx m) (ky m)) x
-
-/-- Angular spectrum (repaired code): modulus ≤ 1 at every frequency — propagating waves are unimodular,
-evanescent ones decay with `|z|`. -/
-theorem angularD_norm_le_one (k z κ2 : ℝ) : ‖angularD k z κ2‖ ≤ 1 := by
-  by_cases h : κ2 ≤ k ^ 2
-  · rw [angularD_of_propagating h, Complex.norm_exp_ofReal_mul_I]
-  · rw [angularD_of_evanescent h, Complex.norm_exp_ofReal, Real.exp_le_one_iff]
-    have := Real.sqrt_nonneg (κ2 - k ^ 2)
-    have := abs_nonneg z
-    nlinarith
-
-/-- With real `k_z` (no evanescent wave sampled) the angular-spectrum transfer function is unimodular —
-for the repaired and the unrepaired code alike. -/
-theorem angularD_norm_of_propagating {k z κ2 : ℝ} (h : κ2 ≤ k ^ 2) :
-    ‖angularD k z κ2‖ = 1 ∧ ‖angularDOld k z κ2‖ = 1 := by
-  rw [angularD_of_propagating h, angularDOld_of_propagating h, Complex.norm_exp_ofReal_mul_I]
-  exact ⟨rfl, rfl⟩
-
-theorem angular_power_nonincreasing (P : FourierPair μ) {e : ι → μ} (he : Function.Injective e)
-    {σ : Type*} (S : μ → Finset σ) (k z : ℝ) (κ2 : μ → σ → ℝ) (x : ι → ℂ) :
-    nsq (filter P e (fun m => meanOver (S m) (fun s => angularD k z (κ2 m s))) x) ≤ nsq x :=
-  power_nonincreasing P he
-    (fun m => norm_meanOver_le_one (S m) _ fun s _ => angularD_norm_le_one k z (κ2 m s)) x
-
-/-- Unrepaired code (namespace `Old`: documentation of finding D30, the code no longer exists in /repo — not evidence
-for the property): the same holds as long as no evanescent wave is sampled or `z ≥ 0`. -/
-theorem Old.angularDOld_norm_le_one {k z κ2 : ℝ} (h : κ2 ≤ k ^ 2 ∨ 0 ≤ z) : ‖angularDOld k z κ2‖ ≤ 1 := by
-  by_cases hp : κ2 ≤ k ^ 2
-  · rw [angularDOld_of_propagating hp, Complex.norm_exp_ofReal_mul_I]
-  · have hz : 0 ≤ z := h.resolve_left hp
-    rw [angularDOld_of_evanescent hp, Complex.norm_exp_ofReal, Real.exp_le_one_iff]
-    have := Real.sqrt_nonneg (κ2 - k ^ 2)
-    nlinarith
-
-/-- **Counterexample for the unrepaired code (finding D30).** An evanescent component propagated by a
-negative distance is amplified: the transfer function has modulus `> 1`. -/
-theorem Old.angularDOld_evanescent_grows {k z κ2 : ℝ} (h : k ^ 2 < κ2) (hz : z < 0) :
-    1 < ‖angularDOld k z κ2‖ := by
-  rw [angularDOld_of_evanescent (not_le.mpr h), Complex.norm_exp_ofReal, Real.one_lt_exp_iff]
-  have : 0 < Real.sqrt (κ2 - k ^ 2) := Real.sqrt_pos.mpr (by linarith)
-  nlinarith
-
 /-- The regime as the property words it (pixel ≥ λ|z|/extent and ≥ λ/2) does *not* exclude evanescent
 waves on a 2-D grid: for an 8×8 grid with pixel `5λ/8` the corner frequencies have negative radicand. -/
 theorem stated_regime_admits_evanescent :
@@ -154,134 +39,14 @@ theorem stated_regime_admits_evanescent :
   ⟨{ kind := .angular, nx := 8, ny := 8, dx := 5/8, dy := 5/8, lam := 1, z := -1/4, n := 1, qx := 2, qy := 2, sx := 1, sy := 1 },
     by decide +kernel⟩
 
-/-! ## `forward(-z) = backward(+z)` -/
-
-/-- Fresnel: `D_{-z} = conj D_z` at every frequency. -/
-theorem fresnel_neg_z (k z kx ky : ℝ) : fresnelD k (-z) kx ky = conj (fresnelD k z kx ky) :=
-  fresnelD_neg k z kx ky
-
-/-- Angular spectrum (repaired): `D_{-z} = conj D_z` at every frequency, evanescent or not. -/
-theorem angular_neg_z (k z κ2 : ℝ) : angularD k (-z) κ2 = conj (angularD k z κ2) := by
-  by_cases h : κ2 ≤ k ^ 2
-  · rw [angularD_of_propagating h, angularD_of_propagating h, conj_exp_ofReal_mul_I]
-    congr 3; ring
-  · rw [angularD_of_evanescent h, angularD_of_evanescent h, abs_neg, ← Complex.exp_conj,
-      Complex.conj_ofReal]
-
-/-- Angular spectrum, unrepaired code: `D_{-z} = conj D_z` where `k_z` is real. -/
-theorem Old.angularOld_neg_z_of_propagating {k z κ2 : ℝ} (h : κ2 ≤ k ^ 2) :
-    angularDOld k (-z) κ2 = conj (angularDOld k z κ2) := by
-  rw [angularDOld_of_propagating h, angularDOld_of_propagating h, conj_exp_ofReal_mul_I]
-  congr 3; ring
-
-/-- …and fails where it is not: for an evanescent component and `z ≠ 0` the unrepaired transfer function
-of `-z` differs from the conjugate of that of `+z` (finding D30). -/
-theorem Old.angularOld_neg_z_fails_of_evanescent {k z κ2 : ℝ} (h : k ^ 2 < κ2) (hz : z ≠ 0) :
-    angularDOld k (-z) κ2 ≠ conj (angularDOld k z κ2) := by
-  have hs : 0 < Real.sqrt (κ2 - k ^ 2) := Real.sqrt_pos.mpr (by linarith)
-  rw [angularDOld_of_evanescent (not_le.mpr h), angularDOld_of_evanescent (not_le.mpr h),
-    ← Complex.exp_conj, Complex.conj_ofReal, ← Complex.ofReal_exp, ← Complex.ofReal_exp]
-  intro heq
-  have := Real.exp_injective (Complex.ofReal_injective heq)
-  have h2 : Real.sqrt (κ2 - k ^ 2) * z = 0 := by linarith
-  rcases mul_eq_zero.mp h2 with h0 | h0
-  · exact hs.ne' h0
-  · exact hz h0
-
-/-- Propagating by `-z` forward equals propagating by `+z` backward, for any transfer-function family with
-`D_{-z} = conj D_z` pointwise — sub-sample averaging included (`conj_meanOver`). -/
-theorem neg_z_forward_eq_backward (P : FourierPair μ) (e : ι → μ) {σ : Type*} (S : μ → Finset σ)
-    (d : ℝ → μ → σ → ℂ) (z : ℝ) (hd : ∀ m s, d (-z) m s = conj (d z m s)) (x : ι → ℂ) :
-    filter P e (fun m => meanOver (S m) (d (-z) m)) x
-      = filterBackward P e (fun m => meanOver (S m) (d z m)) x := by
-  unfold filterBackward
-  congr 1
-  funext m
-  rw [conj_meanOver]
-  congr 1
-  funext s
-  exact hd m s
-
-theorem fresnel_neg_z_forward_eq_backward (P : FourierPair μ) (e : ι → μ) {σ : Type*} (S : μ → Finset σ)
-    (k z : ℝ) (kx ky : μ → σ → ℝ) (x : ι → ℂ) :
-    filter P e (fun m => meanOver (S m) (fun s => fresnelD k (-z) (kx m s) (ky m s))) x
-      = filterBackward P e (fun m => meanOver (S m) (fun s => fresnelD k z (kx m s) (ky m s))) x :=
-  neg_z_forward_eq_backward P e S (fun z m s => fresnelD k z (kx m s) (ky m s)) z
-    (fun m s => fresnelD_neg k z _ _) x
-
-theorem angular_neg_z_forward_eq_backward (P : FourierPair μ) (e : ι → μ) {σ : Type*} (S : μ → Finset σ)
-    (k z : ℝ) (κ2 : μ → σ → ℝ) (x : ι → ℂ) :
-    filter P e (fun m => meanOver (S m) (fun s => angularD k (-z) (κ2 m s))) x
-      = filterBackward P e (fun m => meanOver (S m) (fun s => angularD k z (κ2 m s))) x :=
-  neg_z_forward_eq_backward P e S (fun z m s => angularD k z (κ2 m s)) z
-    (fun m s => angular_neg_z k z _) x
-
-/-! ## no padding (`e` bijective), no oversampling: unitary, inverse, additive -/
-
-/-- Unimodular transfer function, nothing padded: the filter preserves the norm. -/
-theorem filter_unitary (P : FourierPair μ) {e : ι → μ} (he : Function.Bijective e) {D : μ → ℂ}
-    (hD : ∀ m, ‖D m‖ = 1) (x : ι → ℂ) : nsq (filter P e D x) = nsq x := by
-  unfold filter
-  rw [nsq_crop_of_bij he, P.nsq_Finv, nsq_mulD_eq hD, P.nsq_F, ← mul_assoc,
-    inv_mul_cancel₀ P.c_pos.ne', one_mul, nsq_pad he.1]
-
-/-- …and `backward` inverts `forward`. -/
-theorem filter_backward_inverse (P : FourierPair μ) {e : ι → μ} (he : Function.Bijective e) {D : μ → ℂ}
-    (hD : ∀ m, ‖D m‖ = 1) (x : ι → ℂ) : filterBackward P e D (filter P e D x) = x := by
-  unfold filterBackward
-  rw [filter_comp P he]
-  have : (fun m => conj (D m) * D m) = fun _ => (1 : ℂ) := by
-    funext m
-    rw [Complex.conj_mul', hD m]; norm_num
-  rw [this, filter_one P he.1]
-
-/-- Fresnel propagation with `zero_padding = 1`, `num_oversampling = 1` is unitary. -/
-theorem fresnel_unitary (P : FourierPair μ) {e : ι → μ} (he : Function.Bijective e) (k z : ℝ)
-    (kx ky : μ → ℝ) (x : ι → ℂ) :
-    nsq (filter P e (fun m => fresnelD k z (kx m) (ky m)) x) = nsq x :=
-  filter_unitary P he (fun m => norm_fresnelD k z (kx m) (ky m)) x
-
-/-- …its backward propagation restores the input. -/
-theorem fresnel_backward_inverse (P : FourierPair μ) {e : ι → μ} (he : Function.Bijective e) (k z : ℝ)
-    (kx ky : μ → ℝ) (x : ι → ℂ) :
-    filterBackward P e (fun m => fresnelD k z (kx m) (ky m))
-      (filter P e (fun m => fresnelD k z (kx m) (ky m)) x) = x :=
-  filter_backward_inverse P he (fun m => norm_fresnelD k z (kx m) (ky m)) x
-
-/-- …and propagating by `z₁` then by `z₂` is propagating by `z₁ + z₂`
-(`D_{z₁}·D_{z₂} = D_{z₁+z₂}` pointwise). -/
-theorem fresnel_additive (P : FourierPair μ) {e : ι → μ} (he : Function.Bijective e) (k z₁ z₂ : ℝ)
-    (kx ky : μ → ℝ) (x : ι → ℂ) :
-    filter P e (fun m => fresnelD k z₂ (kx m) (ky m)) (filter P e (fun m => fresnelD k z₁ (kx m) (ky m)) x)
-      = filter P e (fun m => fresnelD k (z₁ + z₂) (kx m) (ky m)) x := by
-  rw [filter_comp P he]
-  congr 1
-  funext m
-  rw [mul_comm, fresnelD_add]
-
 /-- Same sign ⇒ same branch: if `z₁ z₂ ≥ 0` and the *sum* is adequately sampled (the code takes the
 transfer-function branch for `z₁ + z₂`), the code takes that branch for `z₁` and for `z₂` as well, so
 `fresnel_additive` is a statement about the three propagators the code actually builds. -/
 theorem same_sign_same_branch (p : Params) (z₁ z₂ : ℚ) (hs : 0 ≤ z₁ * z₂) (hlam : 0 ≤ p.lam)
     (hL : 0 < lmax p)
     (h : impulseBranch { p with z := z₁ + z₂ } = false) :
-    impulseBranch { p with z := z₁ } = false ∧ impulseBranch { p with z := z₂ } = false := by
-  have key : ∀ z' : ℚ, |z'| ≤ |z₁ + z₂| → impulseBranch { p with z := z' } = false := by
-    intro z' hz'
-    have hthr : threshold { p with z := z' } ≤ threshold { p with z := z₁ + z₂ } := by
-      unfold threshold
-      simp only [ratAbs_eq_abs]
-      have hl : lmax { p with z := z' } = lmax p := rfl
-      have hl' : lmax { p with z := z₁ + z₂ } = lmax p := rfl
-      rw [hl, hl']
-      apply div_le_div_of_nonneg_right _ hL.le
-      exact mul_le_mul_of_nonneg_left hz' hlam
-    unfold impulseBranch at h ⊢
-    simp only [Bool.or_eq_false_iff, decide_eq_false_iff_not, not_lt] at h ⊢
-    exact ⟨hthr.trans h.1, hthr.trans h.2⟩
-  have h1 : |z₁| ≤ |z₁ + z₂| := sq_le_sq.mp (by nlinarith [sq_nonneg z₂])
-  have h2 : |z₂| ≤ |z₁ + z₂| := sq_le_sq.mp (by nlinarith [sq_nonneg z₁])
-  exact ⟨key z₁ h1, key z₂ h2⟩
+    impulseBranch { p with z := z₁ } = false ∧ impulseBranch { p with z := z₂ } = false :=
+  impulseBranch_of_same_sign p z₁ z₂ hs hlam hL h
 
 /-- `same_sign_same_branch` is not vacuous: `z₁ = z₂ = 1/4` on an 8×6 grid, all three on the
 transfer-function branch. -/
@@ -298,12 +63,6 @@ bookkeeping survives a setter and that only the last assignment of each paramete
 histories.  (That the real object's cached transfer function / scratch arrays do not leak between calls is
 replayed by the harness on call sequences; the cache itself is C05.) -/
 
-/-- Two filter objects whose transfer functions agree pointwise give the same result: the output depends on
-the history of the object only through `D`. -/
-theorem filter_congr (P : FourierPair μ) (e : ι → μ) {D D' : μ → ℂ} (h : ∀ m, D m = D' m) (x : ι → ℂ) :
-    filter P e D x = filter P e D' x := by
-  have : D = D' := funext h
-  rw [this]
 
 /-- `distance`, `refractive_index`, `num_oversampling` and the wavelength leave the padded sizes and the
 cut-out untouched (the internal array keeps its shape); only `zero_padding` changes them. -/
@@ -375,16 +134,8 @@ theorem padded_one (N : ℕ) : padded 1 N = N := by
 `k = 2π n/λ`, `k⊥ = 2π ν`:  `D = exp(2πi · fresnelTurns)`. -/
 theorem model_fresnelTurns (p : Params) (νx νy : ℚ) (hn : p.n ≠ 0) (hl : p.lam ≠ 0) :
     fresnelD (2 * Real.pi * (p.n : ℝ) / (p.lam : ℝ)) (p.z : ℝ) (2 * Real.pi * (νx : ℝ)) (2 * Real.pi * (νy : ℝ))
-      = cexp (((2 * Real.pi * ((fresnelTurns p νx νy : ℚ) : ℝ) : ℝ) : ℂ) * I) := by
-  unfold fresnelD fresnelTurns
-  rw [← Complex.exp_add, ← add_mul, ← Complex.ofReal_add]
-  congr 3
-  have hn' : (p.n : ℝ) ≠ 0 := by exact_mod_cast hn
-  have hl' : (p.lam : ℝ) ≠ 0 := by exact_mod_cast hl
-  have hpi := Real.pi_ne_zero
-  push_cast
-  field_simp
-  ring
+      = cexp (((2 * Real.pi * ((fresnelTurns p νx νy : ℚ) : ℝ) : ℝ) : ℂ) * I) :=
+  fresnelD_eq_turns p νx νy hn hl
 
 /-- The model's radicand is `(k² - |k⊥|²)/(2π)²`: its sign decides "evanescent" exactly as `kz` does. -/
 theorem model_radicand (p : Params) (νx νy : ℚ) (hl : p.lam ≠ 0) :
@@ -395,144 +146,6 @@ theorem model_radicand (p : Params) (νx νy : ℚ) (hl : p.lam ≠ 0) :
   have hl' : (p.lam : ℝ) ≠ 0 := by exact_mod_cast hl
   push_cast
   field_simp
-
-/-! ## the hypotheses are satisfiable -/
-
-/-- A `FourierPair` exists on every index type (the identity with `c = 1`), so none of the theorems
-above is vacuous; the one the code uses is the DFT of C01/C02. -/
-example : Nonempty (FourierPair μ) :=
-  ⟨{ F := LinearMap.id, Finv := LinearMap.id, c := 1, c_pos := one_pos,
-     Finv_F := fun _ => rfl, F_Finv := fun _ => rfl, adj := fun x y => by simp }⟩
-
-/-- A non-trivial `FourierPair`: the two-point DFT `F (a, b) = (a + b, a - b)`, `F⁻¹ = F/2`, `c = 2`. -/
-example : ∃ P : FourierPair (Fin 2), P.c = 2 := by
-  refine ⟨{ F := { toFun := fun x => ![x 0 + x 1, x 0 - x 1], map_add' := ?_, map_smul' := ?_ },
-            Finv := { toFun := fun x => ![(x 0 + x 1) / 2, (x 0 - x 1) / 2], map_add' := ?_, map_smul' := ?_ },
-            c := 2, c_pos := two_pos, Finv_F := ?_, F_Finv := ?_, adj := ?_ }, rfl⟩
-  · intro x y; ext i; fin_cases i <;> simp <;> ring
-  · intro a x; ext i; fin_cases i <;> simp <;> ring
-  · intro x y; ext i; fin_cases i <;> simp <;> ring
-  · intro a x; ext i; fin_cases i <;> simp <;> ring
-  · intro x; ext i; fin_cases i <;> simp
-  · intro y; ext i; fin_cases i <;> simp <;> ring
-  · intro x y
-    simp only [ip, Fin.sum_univ_two, LinearMap.coe_mk, AddHom.coe_mk, Matrix.cons_val_zero,
-      Matrix.cons_val_one, map_add, map_sub, map_div₀, map_ofNat]
-    push_cast
-    ring
-
-/-! ## hypothesis-free: `P` is the DFT of C01/C02
-
-`Lemmas/FourierLinkC04.lean` constructs the `FourierPair` from the specification of the FFT kernel that
-C01/C02 assume of numpy (`Model/FftIndex.lean`: `Fft.dft`; `Model/FftIndex2.lean`: `Fft.dft2`), with the
-kernels `kF M n = exp(-2πi n/M)`, `kB M n = exp(+2πi n/M)` (`Cfg.kerF`/`Cfg.kerB` at `T = expT`):
-
-* `dftPair2 My Mx hMy hMx : FourierPair (Fin My × Fin Mx)` has `F = fftn` (`dftPair2_F_eq_dft2`:
-  `F x (qy,qx) = Fft.dft2 My Mx (kF My) (kF Mx) (ext2 x) qy qx`), `Finv = ifftn` (`dftPair2_Finv_eq_dft2`:
-  `1/(My·Mx)` times `Fft.dft2` with the inverse kernels) and `c = My·Mx` (`dftPair2_c`);
-* `dftPair M hM : FourierPair (Fin M)` is the one-axis version (`F = fft`, `Finv = ifft`, `c = M`).
-
-Inverse, adjoint relation and linearity are *proved* there (root-of-unity orthogonality
-`Fft.char_sum_range` at `Complex.exp`), so the theorems below carry no hypothesis on the transform; the
-internal grid is `μ = Fin My × Fin Mx` (index `(iy, ix)`), any `My, Mx > 0`, and `e : ι → Fin My × Fin Mx`
-is the cut-out. -/
-
-section dft
-variable (My Mx : ℕ) (hMy : 0 < My) (hMx : 0 < Mx)
-
-theorem filter_linear_dft (e : ι → Fin My × Fin Mx) (D : Fin My × Fin Mx → ℂ) (a b : ℂ) (x y : ι → ℂ) :
-    filter (dftPair2 My Mx hMy hMx) e D (a • x + b • y)
-      = a • filter (dftPair2 My Mx hMy hMx) e D x + b • filter (dftPair2 My Mx hMy hMx) e D y :=
-  filter_linear _ e D a b x y
-
-theorem filter_adjoint_dft (e : ι → Fin My × Fin Mx) (D : Fin My × Fin Mx → ℂ) (x y : ι → ℂ) :
-    ip y (filter (dftPair2 My Mx hMy hMx) e D x) = ip (filterBackward (dftPair2 My Mx hMy hMx) e D y) x :=
-  filter_adjoint _ e D x y
-
-theorem filter_adjoint_weighted_dft (e : ι → Fin My × Fin Mx) (D : Fin My × Fin Mx → ℂ) (w : ℝ)
-    (x y : ι → ℂ) :
-    (w : ℂ) * ip y (filter (dftPair2 My Mx hMy hMx) e D x)
-      = (w : ℂ) * ip (filterBackward (dftPair2 My Mx hMy hMx) e D y) x :=
-  filter_adjoint_weighted _ e D w x y
-
-theorem filterT_adjoint_dft (e : ι → Fin My × Fin Mx) (D : Fin My × Fin Mx → ℂ) (x y : τ → ι → ℂ) :
-    ∑ t, ip (y t) (filterT (dftPair2 My Mx hMy hMx) e D x t)
-      = ∑ t, ip (filterT (dftPair2 My Mx hMy hMx) e (fun m => conj (D m)) y t) (x t) :=
-  filterT_adjoint _ e D x y
-
-theorem power_nonincreasing_dft {e : ι → Fin My × Fin Mx} (he : Function.Injective e)
-    {D : Fin My × Fin Mx → ℂ} (hD : ∀ m, ‖D m‖ ≤ 1) (x : ι → ℂ) :
-    nsq (filter (dftPair2 My Mx hMy hMx) e D x) ≤ nsq x :=
-  power_nonincreasing _ he hD x
-
-theorem power_nonincreasing_tensor_dft {e : ι → Fin My × Fin Mx} (he : Function.Injective e)
-    {D : Fin My × Fin Mx → ℂ} (hD : ∀ m, ‖D m‖ ≤ 1) (x : τ → ι → ℂ) :
-    ∑ t, nsq (filterT (dftPair2 My Mx hMy hMx) e D x t) ≤ ∑ t, nsq (x t) :=
-  power_nonincreasing_tensor _ he hD x
-
-theorem fresnel_power_nonincreasing_dft {e : ι → Fin My × Fin Mx} (he : Function.Injective e)
-    {σ : Type*} (S : Fin My × Fin Mx → Finset σ) (k z : ℝ) (kx ky : Fin My × Fin Mx → σ → ℝ)
-    (x : ι → ℂ) :
-    nsq (filter (dftPair2 My Mx hMy hMx) e
-      (fun m => meanOver (S m) (fun s => fresnelD k z (kx m s) (ky m s))) x) ≤ nsq x :=
-  fresnel_power_nonincreasing _ he S k z kx ky x
-
-theorem angular_power_nonincreasing_dft {e : ι → Fin My × Fin Mx} (he : Function.Injective e)
-    {σ : Type*} (S : Fin My × Fin Mx → Finset σ) (k z : ℝ) (κ2 : Fin My × Fin Mx → σ → ℝ) (x : ι → ℂ) :
-    nsq (filter (dftPair2 My Mx hMy hMx) e
-      (fun m => meanOver (S m) (fun s => angularD k z (κ2 m s))) x) ≤ nsq x :=
-  angular_power_nonincreasing _ he S k z κ2 x
-
-theorem fresnel_neg_z_forward_eq_backward_dft (e : ι → Fin My × Fin Mx) {σ : Type*}
-    (S : Fin My × Fin Mx → Finset σ) (k z : ℝ) (kx ky : Fin My × Fin Mx → σ → ℝ) (x : ι → ℂ) :
-    filter (dftPair2 My Mx hMy hMx) e
-        (fun m => meanOver (S m) (fun s => fresnelD k (-z) (kx m s) (ky m s))) x
-      = filterBackward (dftPair2 My Mx hMy hMx) e
-        (fun m => meanOver (S m) (fun s => fresnelD k z (kx m s) (ky m s))) x :=
-  fresnel_neg_z_forward_eq_backward _ e S k z kx ky x
-
-theorem angular_neg_z_forward_eq_backward_dft (e : ι → Fin My × Fin Mx) {σ : Type*}
-    (S : Fin My × Fin Mx → Finset σ) (k z : ℝ) (κ2 : Fin My × Fin Mx → σ → ℝ) (x : ι → ℂ) :
-    filter (dftPair2 My Mx hMy hMx) e (fun m => meanOver (S m) (fun s => angularD k (-z) (κ2 m s))) x
-      = filterBackward (dftPair2 My Mx hMy hMx) e
-        (fun m => meanOver (S m) (fun s => angularD k z (κ2 m s))) x :=
-  angular_neg_z_forward_eq_backward _ e S k z κ2 x
-
-theorem filter_unitary_dft {e : ι → Fin My × Fin Mx} (he : Function.Bijective e)
-    {D : Fin My × Fin Mx → ℂ} (hD : ∀ m, ‖D m‖ = 1) (x : ι → ℂ) :
-    nsq (filter (dftPair2 My Mx hMy hMx) e D x) = nsq x :=
-  filter_unitary _ he hD x
-
-theorem filter_backward_inverse_dft {e : ι → Fin My × Fin Mx} (he : Function.Bijective e)
-    {D : Fin My × Fin Mx → ℂ} (hD : ∀ m, ‖D m‖ = 1) (x : ι → ℂ) :
-    filterBackward (dftPair2 My Mx hMy hMx) e D (filter (dftPair2 My Mx hMy hMx) e D x) = x :=
-  filter_backward_inverse _ he hD x
-
-theorem fresnel_unitary_dft {e : ι → Fin My × Fin Mx} (he : Function.Bijective e) (k z : ℝ)
-    (kx ky : Fin My × Fin Mx → ℝ) (x : ι → ℂ) :
-    nsq (filter (dftPair2 My Mx hMy hMx) e (fun m => fresnelD k z (kx m) (ky m)) x) = nsq x :=
-  fresnel_unitary _ he k z kx ky x
-
-theorem fresnel_backward_inverse_dft {e : ι → Fin My × Fin Mx} (he : Function.Bijective e) (k z : ℝ)
-    (kx ky : Fin My × Fin Mx → ℝ) (x : ι → ℂ) :
-    filterBackward (dftPair2 My Mx hMy hMx) e (fun m => fresnelD k z (kx m) (ky m))
-      (filter (dftPair2 My Mx hMy hMx) e (fun m => fresnelD k z (kx m) (ky m)) x) = x :=
-  fresnel_backward_inverse _ he k z kx ky x
-
-theorem fresnel_additive_dft {e : ι → Fin My × Fin Mx} (he : Function.Bijective e) (k z₁ z₂ : ℝ)
-    (kx ky : Fin My × Fin Mx → ℝ) (x : ι → ℂ) :
-    filter (dftPair2 My Mx hMy hMx) e (fun m => fresnelD k z₂ (kx m) (ky m))
-        (filter (dftPair2 My Mx hMy hMx) e (fun m => fresnelD k z₁ (kx m) (ky m)) x)
-      = filter (dftPair2 My Mx hMy hMx) e (fun m => fresnelD k (z₁ + z₂) (kx m) (ky m)) x :=
-  fresnel_additive _ he k z₁ z₂ kx ky x
-
-/-- The unpadded 2-D case with the identity cut-out: `fftn`-based Fresnel propagation on the grid itself is
-unitary (Parseval for `Fft.dft2`, through the filter). -/
-theorem fresnel_unitary_dft_id (k z : ℝ) (kx ky : Fin My × Fin Mx → ℝ) (x : Fin My × Fin Mx → ℂ) :
-    nsq (filter (dftPair2 My Mx hMy hMx) id (fun m => fresnelD k z (kx m) (ky m)) x) = nsq x :=
-  fresnel_unitary _ Function.bijective_id k z kx ky x
-
-end dft
 
 /-! ## the propagator the code builds: executable cut-out, executable sample points, the DFT
 
@@ -564,102 +177,9 @@ theorem cutout_none_of_unit_padding (hk : p.kind = .fresnel) (hqx : p.qx = 1) (h
   simp only [hqx, hqy]
   exact ⟨padded_one _, padded_one _⟩
 
-/-- Bridge (ii): with `num_oversampling = 1` the sub-pixel mean has one term — the `meanOver` of the
-`fresnel_*` theorems is the un-averaged `fresnelD` of `fresnel_unitary`. -/
-theorem meanOver_one_subsample {σ : Type*} (s : σ) (f : σ → ℂ) : meanOver {s} f = f s :=
-  meanOver_singleton s f
-
-/-- Bridge (iv): in the regime the property names, the array the filter multiplies with is the sub-pixel mean of
-the native transfer function over the executable sample points — and nothing else. -/
-theorem regime_selects_sampled_transfer_function (hr : statedRegime p = true)
-    (Dir : Fin (my p) × Fin (mx p) → ℂ) (m : Fin (my p) × Fin (mx p)) :
-    modelD p Dir m = sampledTF p (ifftshiftIdx (my p) m.1) (ifftshiftIdx (mx p) m.2) :=
-  modelD_of_tf (statedRegime_tf hr) Dir m
-
-/-- … which for a Fresnel propagator without oversampling is the un-averaged `fresnelD` at the pixel's own
-frequency `2πν`, `k = 2πn/λ` (the `D` of `fresnel_unitary` / `fresnel_additive`). -/
-theorem regime_selects_fresnelD (hr : statedRegime p = true) (hk : p.kind = .fresnel) (hx : p.sx = 1)
-    (hy : p.sy = 1) (Dir : Fin (my p) × Fin (mx p) → ℂ) (m : Fin (my p) × Fin (mx p)) :
-    modelD p Dir m = fresnelD (waveK p) (p.z : ℝ)
-      (2 * Real.pi * ((nu p.dx (mx p) (ifftshiftIdx (mx p) m.2) 0 : ℚ) : ℝ))
-      (2 * Real.pi * ((nu p.dy (my p) (ifftshiftIdx (my p) m.1) 0 : ℚ) : ℝ)) := by
-  rw [modelD_of_tf (statedRegime_tf hr), sampledTF_of_no_oversampling hx hy]
-  unfold nativeAt
-  rw [hk]
-  rfl
-
-/-- Under-sampled transfer function: the filter multiplies with the impulse-response transfer function. -/
-theorem impulse_branch_selects_Dir (hb : impulseBranch p = true) (Dir : Fin (my p) × Fin (mx p) → ℂ) :
-    modelD p Dir = Dir := modelD_of_ir hb Dir
-
-/-- Every regime (either branch, any `Dir`): linear. -/
-theorem propagate_linear (Dir : Fin (my p) × Fin (mx p) → ℂ) (a b : ℂ) (x y : Fin p.ny × Fin p.nx → ℂ) :
-    propagate p h Dir (a • x + b • y) = a • propagate p h Dir x + b • propagate p h Dir y :=
-  filter_linear _ _ _ a b x y
-
-/-- Every regime: `backward` is the exact adjoint of `forward`. -/
-theorem propagate_adjoint (Dir : Fin (my p) × Fin (mx p) → ℂ) (x y : Fin p.ny × Fin p.nx → ℂ) :
-    ip y (propagate p h Dir x) = ip (propagateBack p h Dir y) x :=
-  filter_adjoint _ _ _ x y
-
-/-- Transfer-function branch (in particular the regime the property names, `statedRegime_tf`): power never
-increases — Fresnel or (repaired) angular spectrum, any padding, any oversampling, either sign of `z`. -/
-theorem propagate_power_nonincreasing (hb : impulseBranch p = false) (Dir : Fin (my p) × Fin (mx p) → ℂ)
-    (x : Fin p.ny × Fin p.nx → ℂ) : nsq (propagate p h Dir x) ≤ nsq x :=
-  power_nonincreasing _ (cutoutEmb_injective p h) (norm_modelD_le_one hb Dir) x
-
-theorem propagate_power_nonincreasing_of_statedRegime (hr : statedRegime p = true)
-    (Dir : Fin (my p) × Fin (mx p) → ℂ) (x : Fin p.ny × Fin p.nx → ℂ) :
-    nsq (propagate p h Dir x) ≤ nsq x :=
-  propagate_power_nonincreasing p h (statedRegime_tf hr) Dir x
-
 /-- Bridge (iii): `z` and `-z` take the same branch. -/
 theorem impulseBranch_symmetric_in_z :
     impulseBranch (withParam p (.distance (-p.z))) = impulseBranch p := impulseBranch_neg_z p
-
-/-- Transfer-function branch: the propagator built for `-z`, forward, is the propagator built for `+z`,
-backward (both are on the same branch by `impulseBranch_symmetric_in_z`). -/
-theorem propagate_neg_z_eq_backward (hb : impulseBranch p = false)
-    (Dir Dir' : Fin (my p) × Fin (mx p) → ℂ) (x : Fin p.ny × Fin p.nx → ℂ) :
-    propagate (withParam p (.distance (-p.z))) h Dir' x = propagateBack p h Dir x := by
-  rw [propagate_withZ]
-  show filter _ (cutoutEmb p h) (modelDz p (-p.z) Dir') x
-    = filter _ (cutoutEmb p h) (fun m => conj (modelD p Dir m)) x
-  congr 1
-  funext m
-  rw [modelDz_of_tf (by rw [impulseBranch_neg_z]; exact hb), modelD_of_tf hb]
-  exact sampledTF_neg_z p _ _
-
-/-- Fresnel, `zero_padding = 1` (`cutout p = none`), `num_oversampling = 1`, transfer-function branch: unitary. -/
-theorem propagate_unitary (hk : p.kind = .fresnel) (hx : p.sx = 1) (hy : p.sy = 1) (hc : cutout p = none)
-    (hb : impulseBranch p = false) (Dir : Fin (my p) × Fin (mx p) → ℂ) (x : Fin p.ny × Fin p.nx → ℂ) :
-    nsq (propagate p h Dir x) = nsq x :=
-  filter_unitary _ (cutoutEmb_bijective p h hc) (norm_modelD_fresnel_unpadded hk hx hy hb Dir) x
-
-/-- … `backward` inverts `forward`. -/
-theorem propagate_backward_inverse (hk : p.kind = .fresnel) (hx : p.sx = 1) (hy : p.sy = 1)
-    (hc : cutout p = none) (hb : impulseBranch p = false) (Dir : Fin (my p) × Fin (mx p) → ℂ)
-    (x : Fin p.ny × Fin p.nx → ℂ) :
-    propagateBack p h Dir (propagate p h Dir x) = x :=
-  filter_backward_inverse _ (cutoutEmb_bijective p h hc) (norm_modelD_fresnel_unpadded hk hx hy hb Dir) x
-
-/-- … and the propagator built for `z₁` followed by the one built for `z₂` (same sign) is the one built for
-`z₁ + z₂`, provided the *sum* is adequately sampled (then all three are on the transfer-function branch,
-`same_sign_same_branch`). -/
-theorem propagate_additive (hk : p.kind = .fresnel) (hx : p.sx = 1) (hy : p.sy = 1) (hc : cutout p = none)
-    (z₁ z₂ : ℚ) (hs : 0 ≤ z₁ * z₂) (hlam : 0 ≤ p.lam) (hL : 0 < lmax p)
-    (hb : impulseBranch (withParam p (.distance (z₁ + z₂))) = false)
-    (Dir₁ Dir₂ Dir₁₂ : Fin (my p) × Fin (mx p) → ℂ) (x : Fin p.ny × Fin p.nx → ℂ) :
-    propagate (withParam p (.distance z₂)) h Dir₂ (propagate (withParam p (.distance z₁)) h Dir₁ x)
-      = propagate (withParam p (.distance (z₁ + z₂))) h Dir₁₂ x := by
-  obtain ⟨hb1, hb2⟩ := same_sign_same_branch p z₁ z₂ hs hlam hL hb
-  rw [propagate_withZ, propagate_withZ, propagate_withZ, filter_comp _ (cutoutEmb_bijective p h hc)]
-  congr 1
-  funext m
-  rw [modelDz_of_tf hb1, modelDz_of_tf hb2, modelDz_of_tf hb, sampledTF_withZ_of_no_oversampling hx hy,
-    sampledTF_withZ_of_no_oversampling hx hy, sampledTF_withZ_of_no_oversampling hx hy,
-    nativeAt_withZ_fresnel hk, nativeAt_withZ_fresnel hk, nativeAt_withZ_fresnel hk]
-  exact fresnelAt_mul p z₁ z₂ _
 
 /-! ### what the driver prints for a transfer-function sample *is* the sample of `modelD`
 
@@ -667,30 +187,6 @@ The harness turns the driver's answer to `tfq` into a complex number by `mean(ex
 `mean(exp(2πi z √r))` / `exp(-2π·evz·√(-r))` (angular spectrum) and compares it with the array the real filter
 multiplies with.  These theorems say that this very number is `sampledTF` (hence `modelD` on the
 transfer-function branch, `modelD_of_tf`). -/
-
-theorem exp_turns_frac (t : ℚ) :
-    cexp (((2 * Real.pi * ((frac t : ℚ) : ℝ) : ℝ) : ℂ) * I) = cexp (((2 * Real.pi * ((t : ℚ) : ℝ) : ℝ) : ℂ) * I) := by
-  unfold frac
-  have h : (((2 * Real.pi * ((t - (t.floor : ℚ) : ℚ) : ℝ) : ℝ) : ℂ) * I)
-      = ((2 * Real.pi * (t : ℝ) : ℝ) : ℂ) * I - (t.floor : ℂ) * (2 * Real.pi * I) := by
-    push_cast; ring
-  rw [h, Complex.exp_sub, Complex.exp_int_mul_two_pi_mul_I, div_one]
-
-/-- Fresnel: `sampledTF` is the mean of `exp(2πi t)` over the phases `fresnelSubTurns` the driver prints. -/
-theorem sampledTF_fresnel_eq_turns (p : Params) (hk : p.kind = .fresnel) (hn : p.n ≠ 0) (hl : p.lam ≠ 0)
-    (iy ix : ℕ) :
-    sampledTF p iy ix
-      = listMean ((fresnelSubTurns p ix iy).map fun t => cexp (((2 * Real.pi * ((t : ℚ) : ℝ) : ℝ) : ℂ) * I)) := by
-  unfold sampledTF fresnelSubTurns
-  rw [List.map_map]
-  congr 1
-  apply List.map_congr_left
-  rintro ⟨a, b⟩ _
-  have hnat : nativeAt p = fresnelAt p := by unfold nativeAt; rw [hk]
-  rw [hnat]
-  simp only [Function.comp]
-  rw [exp_turns_frac]
-  exact model_fresnelTurns p a b hn hl
 
 /-- Angular spectrum: the sample at frequency `ν` from the radicand the driver prints — `exp(2πi z √r)` for a
 propagating wave (`r ≥ 0`), `exp(-2π |z| √(-r))` (`evz = |z|`) for an evanescent one. -/
@@ -744,38 +240,6 @@ output wavefronts) times the pixel weight.  `FourierFilter` with a tensor transf
 executable `matVec` (`field_dot`) and, backward, with `conjT conj` (`field_conjugate_transpose`) — driver op `mdot`,
 compared with those two hcipy functions; the harness recomputes `forward`/`backward` of the real filter with them. -/
 
-theorem filter_add_smul (P : FourierPair μ) (e : ι → μ) (D : μ → ℂ) (γ : ℂ) (u v : ι → ℂ) :
-    filter P e D (u + γ • v) = filter P e D u + γ • filter P e D v := by
-  have h := filter_linear P e D 1 γ u v
-  simpa using h
-
-/-- **Passivity in the Stokes-`I` form**: a Jones-matrix wavefront with a physical input Stokes vector
-(`0 ≤ S0`, `S1² + S2² + S3² ≤ S0²`, i.e. degree of polarisation `≤ 1`) does not gain total power when every
-component is filtered with `|D| ≤ 1` — although `I` mixes the components (`M13`, `M14` terms). -/
-theorem stokes_power_nonincreasing (P : FourierPair μ) {e : ι → μ} (he : Function.Injective e) {D : μ → ℂ}
-    (hD : ∀ m, ‖D m‖ ≤ 1) (w : ℝ) (hw : 0 ≤ w) (S : Fin 4 → ℝ) (hS0 : 0 ≤ S 0)
-    (hphys : S 1 ^ 2 + S 2 ^ 2 + S 3 ^ 2 ≤ S 0 ^ 2) (E : Fin 2 × Fin 2 → ι → ℂ) :
-    stokesPower w S (filterT P e D E) ≤ stokesPower w S E :=
-  stokesPower_contraction w hw S hS0 hphys (filter P e D) (filter_add_smul P e D)
-    (power_nonincreasing P he hD) E
-
-/-- The same with the hypothesis written as `S0 ≥ √(S1² + S2² + S3²)`. -/
-theorem stokes_power_nonincreasing_sqrt (P : FourierPair μ) {e : ι → μ} (he : Function.Injective e) {D : μ → ℂ}
-    (hD : ∀ m, ‖D m‖ ≤ 1) (w : ℝ) (hw : 0 ≤ w) (S : Fin 4 → ℝ)
-    (hS : Real.sqrt (S 1 ^ 2 + S 2 ^ 2 + S 3 ^ 2) ≤ S 0) (E : Fin 2 × Fin 2 → ι → ℂ) :
-    stokesPower w S (filterT P e D E) ≤ stokesPower w S E := by
-  have h0 : 0 ≤ S 0 := le_trans (Real.sqrt_nonneg _) hS
-  have h1 : S 1 ^ 2 + S 2 ^ 2 + S 3 ^ 2 ≤ S 0 ^ 2 := by
-    exact (Real.sqrt_le_left h0).mp hS
-  exact stokes_power_nonincreasing P he hD w hw S h0 h1 E
-
-/-- On the propagator the code builds (transfer-function branch; Fresnel or repaired angular spectrum). -/
-theorem propagate_stokes_power_nonincreasing (p : Params) (h : padOK p = true) (hb : impulseBranch p = false)
-    (Dir : Fin (my p) × Fin (mx p) → ℂ) (w : ℝ) (hw : 0 ≤ w) (S : Fin 4 → ℝ) (hS0 : 0 ≤ S 0)
-    (hphys : S 1 ^ 2 + S 2 ^ 2 + S 3 ^ 2 ≤ S 0 ^ 2) (E : Fin 2 × Fin 2 → Fin p.ny × Fin p.nx → ℂ) :
-    stokesPower w S (fun t => propagate p h Dir (E t)) ≤ stokesPower w S E :=
-  stokes_power_nonincreasing _ (cutoutEmb_injective p h) (norm_modelD_le_one hb Dir) w hw S hS0 hphys E
-
 /-- `stokesPhysical` (the decidable predicate the driver reports, over `ℚ`) is the hypothesis above. -/
 theorem stokesPhysical_iff (a b c d : ℚ) :
     stokesPhysical a b c d = true ↔ 0 ≤ a ∧ b ^ 2 + c ^ 2 + d ^ 2 ≤ a ^ 2 := by
@@ -794,38 +258,11 @@ theorem stokes_power_unphysical_counterexample :
   simp [stokesPower, stokesI, filterT, filter, crop, mulD, pad, FourierPair.idPair]
   norm_num
 
-/-- **Matrix-valued transfer function**: `backward` (conjugate transpose at every sample) is the exact adjoint
-of `forward`, for every family of matrices, every padding — vector fields of any length `n`. -/
-theorem filterM_adjoint {n : ℕ} (P : FourierPair μ) (e : ι → μ) (D : μ → Fin n → Fin n → ℂ)
-    (x y : Fin n → ι → ℂ) :
-    ∑ t, ip (y t) (filterM P e D x t) = ∑ t, ip (filterMBackward P e D y t) (x t) :=
-  filterM_adjoint_sum P e D x y
-
-/-- Jones-matrix fields (`field_dot(D, E)` is a matrix product at every sample): column by column. -/
-theorem filterM_adjoint_matrix_field {n k : ℕ} (P : FourierPair μ) (e : ι → μ) (D : μ → Fin n → Fin n → ℂ)
-    (x y : Fin n → Fin k → ι → ℂ) :
-    ∑ l, ∑ t, ip (y t l) (filterM P e D (fun j => x j l) t)
-      = ∑ l, ∑ t, ip (filterMBackward P e D (fun j => y j l) t) (x t l) :=
-  Finset.sum_congr rfl fun l _ => filterM_adjoint_sum P e D (fun j => x j l) (fun j => y j l)
-
 /-- The product at one sample is the matrix–vector product, the backward matrix the conjugate transpose. -/
 theorem filterM_pointwise {n : ℕ} (D : Fin n → Fin n → ℂ) (v : Fin n → ℂ) :
     matVec D v = Matrix.mulVec (Matrix.of D) v ∧
       Matrix.of (conjT (fun z => conj z) D) = (Matrix.of D).conjTranspose :=
   ⟨matVec_eq_mulVec D v, conjT_eq_conjTranspose D⟩
-
-/-- A scalar transfer function is the special case `D m = d m · 1`. -/
-theorem filterM_of_scalar {n : ℕ} (P : FourierPair μ) (e : ι → μ) (d : μ → ℂ) (x : Fin n → ι → ℂ) (t : Fin n) :
-    filterM P e (fun m i j => if i = j then d m else 0) x t = filter P e d (x t) :=
-  filterM_scalar P e d x t
-
-/-- Hypothesis-free, with the executable cut-out: the real `FourierFilter(grid, tensor tf, q)` on the internal
-grid `my p × mx p` of the model. -/
-theorem filterM_adjoint_exec {n : ℕ} (p : Params) (h : padOK p = true)
-    (D : Fin (my p) × Fin (mx p) → Fin n → Fin n → ℂ) (x y : Fin n → Fin p.ny × Fin p.nx → ℂ) :
-    ∑ t, ip (y t) (filterM (dftPair2 (my p) (mx p) (my_pos h) (mx_pos h)) (cutoutEmb p h) D x t)
-      = ∑ t, ip (filterMBackward (dftPair2 (my p) (mx p) (my_pos h) (mx_pos h)) (cutoutEmb p h) D y t) (x t) :=
-  filterM_adjoint_sum _ _ D x y
 
 /-! ### one axis (`fft` / `ifft`, `c = M`) -/
 
@@ -845,28 +282,6 @@ include h
 local notation "runF" => filterP p (kF (my p)) (kF (mx p)) (kB (my p)) (kB (mx p)) (((my p * mx p : ℕ) : ℂ)⁻¹)
 local notation "runB" => filterPBackward (starRingEnd ℂ) p (kF (my p)) (kF (mx p)) (kB (my p)) (kB (mx p))
   (((my p * mx p : ℕ) : ℂ)⁻¹)
-
-/-- **Bridge**: the abstract `FourierFilter` operator with the DFT of C01/C02 and the executable cut-out is the
-executable pipeline. -/
-theorem filter_dft2_eq_filterP (D : Fin (my p) × Fin (mx p) → ℂ) (x : Fin p.ny × Fin p.nx → ℂ) :
-    filter (dftPair2 (my p) (mx p) (my_pos h) (mx_pos h)) (cutoutEmb p h) D x
-      = fun j => runF (ext2 D) (ext2 x) (j.1 : ℕ) (j.2 : ℕ) :=
-  funext fun j => filter_dft2_apply p h D x j
-
-/-- **Bridge**, `backward`: the pipeline with the conjugated transfer function. -/
-theorem filterBackward_dft2_eq_filterPBackward (D : Fin (my p) × Fin (mx p) → ℂ) (x : Fin p.ny × Fin p.nx → ℂ) :
-    filterBackward (dftPair2 (my p) (mx p) (my_pos h) (mx_pos h)) (cutoutEmb p h) D x
-      = fun j => runB (ext2 D) (ext2 x) (j.1 : ℕ) (j.2 : ℕ) :=
-  funext fun j => filterBackward_dft2_apply p h D x j
-
-/-- The propagators are the executed pipeline with the transfer function `make_instance` selects. -/
-theorem propagate_eq_filterP (Dir : Fin (my p) × Fin (mx p) → ℂ) (x : Fin p.ny × Fin p.nx → ℂ) :
-    propagate p h Dir x = fun j => runF (ext2 (modelD p Dir)) (ext2 x) (j.1 : ℕ) (j.2 : ℕ) :=
-  filter_dft2_eq_filterP p h _ x
-
-theorem propagateBack_eq_filterPBackward (Dir : Fin (my p) × Fin (mx p) → ℂ) (x : Fin p.ny × Fin p.nx → ℂ) :
-    propagateBack p h Dir x = fun j => runB (ext2 (modelD p Dir)) (ext2 x) (j.1 : ℕ) (j.2 : ℕ) :=
-  filterBackward_dft2_eq_filterPBackward p h _ x
 
 /-- Linear: the executed pipeline, any transfer function, any padding. -/
 theorem filterP_linear (D : Fin (my p) × Fin (mx p) → ℂ) (a b : ℂ) (x y : Fin p.ny × Fin p.nx → ℂ)
@@ -911,11 +326,281 @@ theorem filterP_backward_inverse (hc : cutout p = none) {D : Fin (my p) × Fin (
 
 end pipeline
 
-/-- On the transfer-function branch that array is the executable `shiftD` (= `np.fft.ifftshift`, what the driver
-applies to the centred transfer function it is given) of the sampled transfer function. -/
-theorem transfer_function_is_ifftshifted {p : Params} (hb : impulseBranch p = false)
-    (Dir : Fin (my p) × Fin (mx p) → ℂ) (m : Fin (my p) × Fin (mx p)) :
-    modelD p Dir m = shiftD (my p) (mx p) (sampledTF p) (m.1 : ℕ) (m.2 : ℕ) := modelD_eq_shiftD hb Dir m
+/-! ## every clause, stated about the executed definitions only (no hypothesis on the transform)
+
+`fourierFilter`, `fourierFilterBackward`, `fresnelForward`, `fresnelBackward`, `fourierFilterM`, `fourierFilterMBackward`
+(`Model/NearField.lean`) are defined once for any `Scalar C`.  The driver ops `filtp`, `prop`, `filtmp` run them at
+`psumScalar` and the harness compares every output pixel with the running `FourierFilter` / `FresnelPropagator`; the
+theorems below are about the *same definitions* at `cScalar = (ℂ, exp(2πi t), conj)`; `filtp_*_denotes_*`,
+`prop_*_denotes_*`, `filtmp_*_denotes_*` (further down) say that `PSum.ev` maps the driver's run onto them.  The only
+hypothesis is the decidable `padOK p` (non-empty grid, padding factors `≥ 1`: what the driver and hcipy insist on).
+A field on the input grid is `x : Fin p.ny × Fin p.nx → ℂ`, handed to the pipeline as `ext2 x`. -/
+
+section scalar
+variable (p : Params) (h : padOK p = true)
+include h
+
+/-- Linear: any transfer function (either branch of `make_instance`), any padding. -/
+theorem fourierFilter_linear (D : ℕ → ℕ → ℂ) (a b : ℂ) (x y : Fin p.ny × Fin p.nx → ℂ) (j : Fin p.ny × Fin p.nx) :
+    fourierFilter cScalar p D (ext2 (a • x + b • y)) (j.1 : ℕ) (j.2 : ℕ)
+      = a * fourierFilter cScalar p D (ext2 x) (j.1 : ℕ) (j.2 : ℕ)
+        + b * fourierFilter cScalar p D (ext2 y) (j.1 : ℕ) (j.2 : ℕ) := by
+  rw [fourierFilter_eq_filter p h, fourierFilter_eq_filter p h, fourierFilter_eq_filter p h, filter_linear]
+  rfl
+
+/-- `backward` is the exact adjoint of `forward`: any transfer function, any padding. -/
+theorem fourierFilter_adjoint (D : ℕ → ℕ → ℂ) (x y : Fin p.ny × Fin p.nx → ℂ) :
+    ip y (fun j => fourierFilter cScalar p D (ext2 x) (j.1 : ℕ) (j.2 : ℕ))
+      = ip (fun j => fourierFilterBackward cScalar p D (ext2 y) (j.1 : ℕ) (j.2 : ℕ)) x := by
+  rw [fourierFilter_fun p h, fourierFilterBackward_fun p h]
+  exact filter_adjoint _ _ _ x y
+
+/-- Passive: `|D| ≤ 1` everywhere ⇒ the power never increases. -/
+theorem fourierFilter_power_nonincreasing {D : ℕ → ℕ → ℂ} (hD : ∀ qy qx, ‖D qy qx‖ ≤ 1)
+    (x : Fin p.ny × Fin p.nx → ℂ) :
+    nsq (fun j : Fin p.ny × Fin p.nx => fourierFilter cScalar p D (ext2 x) (j.1 : ℕ) (j.2 : ℕ)) ≤ nsq x := by
+  rw [fourierFilter_fun p h]
+  exact power_nonincreasing _ (cutoutEmb_injective p h) (fun m => hD _ _) x
+
+/-- Nothing padded (`cutout p = none`) and `|D| = 1`: the power is conserved … -/
+theorem fourierFilter_unitary (hc : cutout p = none) {D : ℕ → ℕ → ℂ} (hD : ∀ qy qx, ‖D qy qx‖ = 1)
+    (x : Fin p.ny × Fin p.nx → ℂ) :
+    nsq (fun j : Fin p.ny × Fin p.nx => fourierFilter cScalar p D (ext2 x) (j.1 : ℕ) (j.2 : ℕ)) = nsq x := by
+  rw [fourierFilter_fun p h]
+  exact filter_unitary _ (cutoutEmb_bijective p h hc) (fun m => hD _ _) x
+
+/-- … `backward` inverts `forward` … -/
+theorem fourierFilter_backward_inverse (hc : cutout p = none) {D : ℕ → ℕ → ℂ} (hD : ∀ qy qx, ‖D qy qx‖ = 1)
+    (x : Fin p.ny × Fin p.nx → ℂ) (j : Fin p.ny × Fin p.nx) :
+    fourierFilterBackward cScalar p D
+        (ext2 fun i : Fin p.ny × Fin p.nx => fourierFilter cScalar p D (ext2 x) (i.1 : ℕ) (i.2 : ℕ)) (j.1 : ℕ) (j.2 : ℕ)
+      = x j := by
+  rw [fourierFilter_fun p h, fourierFilterBackward_eq_filterBackward p h]
+  exact congrFun (filter_backward_inverse _ (cutoutEmb_bijective p h hc) (fun m => hD _ _) x) j
+
+/-- … and two filters compose by multiplying their transfer functions. -/
+theorem fourierFilter_comp (hc : cutout p = none) (D₁ D₂ : ℕ → ℕ → ℂ) (x : Fin p.ny × Fin p.nx → ℂ)
+    (j : Fin p.ny × Fin p.nx) :
+    fourierFilter cScalar p D₂
+        (ext2 fun i : Fin p.ny × Fin p.nx => fourierFilter cScalar p D₁ (ext2 x) (i.1 : ℕ) (i.2 : ℕ)) (j.1 : ℕ) (j.2 : ℕ)
+      = fourierFilter cScalar p (fun a b => D₂ a b * D₁ a b) (ext2 x) (j.1 : ℕ) (j.2 : ℕ) := by
+  rw [fourierFilter_fun p h, fourierFilter_eq_filter p h, fourierFilter_eq_filter p h,
+    filter_comp _ (cutoutEmb_bijective p h hc)]
+  rfl
+
+/-- Passivity in the Stokes-`I` form (`Wavefront.total_power` of a Jones-matrix wavefront with an input Stokes vector,
+`stokesPower` = the grid sum of the executed polynomial `stokesI`): a physical Stokes vector (`0 ≤ S0`,
+`S1² + S2² + S3² ≤ S0²`) does not gain power when every component goes through the pipeline with `|D| ≤ 1`. -/
+theorem fourierFilter_stokes_power_nonincreasing {D : ℕ → ℕ → ℂ} (hD : ∀ qy qx, ‖D qy qx‖ ≤ 1) (w : ℝ) (hw : 0 ≤ w)
+    (S : Fin 4 → ℝ) (hS0 : 0 ≤ S 0) (hphys : S 1 ^ 2 + S 2 ^ 2 + S 3 ^ 2 ≤ S 0 ^ 2)
+    (E : Fin 2 × Fin 2 → Fin p.ny × Fin p.nx → ℂ) :
+    stokesPower w S (fun t (j : Fin p.ny × Fin p.nx) => fourierFilter cScalar p D (ext2 (E t)) (j.1 : ℕ) (j.2 : ℕ))
+      ≤ stokesPower w S E := by
+  have e : (fun t (j : Fin p.ny × Fin p.nx) => fourierFilter cScalar p D (ext2 (E t)) (j.1 : ℕ) (j.2 : ℕ))
+      = filterT (dftPair2 (my p) (mx p) (my_pos h) (mx_pos h)) (cutoutEmb p h) (onGrid D) E := by
+    funext t
+    exact fourierFilter_fun p h D (E t)
+  rw [e]
+  exact stokes_power_nonincreasing _ (cutoutEmb_injective p h) (fun m => hD _ _) w hw S hS0 hphys E
+
+/-! ### the Fresnel propagator (`fresnelForward` / `fresnelBackward`: op `prop`) -/
+
+theorem fresnelForward_linear (a b : ℂ) (x y : Fin p.ny × Fin p.nx → ℂ) (j : Fin p.ny × Fin p.nx) :
+    fresnelForward cScalar p (ext2 (a • x + b • y)) (j.1 : ℕ) (j.2 : ℕ)
+      = a * fresnelForward cScalar p (ext2 x) (j.1 : ℕ) (j.2 : ℕ)
+        + b * fresnelForward cScalar p (ext2 y) (j.1 : ℕ) (j.2 : ℕ) :=
+  fourierFilter_linear p h (fresnelTF cScalar p) a b x y j
+
+/-- `FresnelPropagator.backward` is the exact adjoint of `.forward` (any padding, any oversampling, any distance). -/
+theorem fresnelForward_adjoint (x y : Fin p.ny × Fin p.nx → ℂ) :
+    ip y (fun j => fresnelForward cScalar p (ext2 x) (j.1 : ℕ) (j.2 : ℕ))
+      = ip (fun j => fresnelBackward cScalar p (ext2 y) (j.1 : ℕ) (j.2 : ℕ)) x :=
+  fourierFilter_adjoint p h (fresnelTF cScalar p) x y
+
+/-- Fresnel propagation never increases the power: any padding, any oversampling, either sign of `z`. -/
+theorem fresnelForward_power_nonincreasing (x : Fin p.ny × Fin p.nx → ℂ) :
+    nsq (fun j : Fin p.ny × Fin p.nx => fresnelForward cScalar p (ext2 x) (j.1 : ℕ) (j.2 : ℕ)) ≤ nsq x :=
+  fourierFilter_power_nonincreasing p h (norm_fresnelTF_le_one p) x
+
+theorem fresnelForward_stokes_power_nonincreasing (w : ℝ) (hw : 0 ≤ w) (S : Fin 4 → ℝ) (hS0 : 0 ≤ S 0)
+    (hphys : S 1 ^ 2 + S 2 ^ 2 + S 3 ^ 2 ≤ S 0 ^ 2) (E : Fin 2 × Fin 2 → Fin p.ny × Fin p.nx → ℂ) :
+    stokesPower w S (fun t (j : Fin p.ny × Fin p.nx) => fresnelForward cScalar p (ext2 (E t)) (j.1 : ℕ) (j.2 : ℕ))
+      ≤ stokesPower w S E :=
+  fourierFilter_stokes_power_nonincreasing p h (norm_fresnelTF_le_one p) w hw S hS0 hphys E
+
+/-- `zero_padding = 1` (`cutout p = none`), `num_oversampling = 1`: Fresnel propagation is unitary … -/
+theorem fresnelForward_unitary (hx : p.sx = 1) (hy : p.sy = 1) (hc : cutout p = none) (x : Fin p.ny × Fin p.nx → ℂ) :
+    nsq (fun j : Fin p.ny × Fin p.nx => fresnelForward cScalar p (ext2 x) (j.1 : ℕ) (j.2 : ℕ)) = nsq x :=
+  fourierFilter_unitary p h hc (norm_fresnelTF_eq_one hx hy) x
+
+/-- … `backward` inverts `forward` … -/
+theorem fresnelBackward_inverse (hx : p.sx = 1) (hy : p.sy = 1) (hc : cutout p = none) (x : Fin p.ny × Fin p.nx → ℂ)
+    (j : Fin p.ny × Fin p.nx) :
+    fresnelBackward cScalar p
+        (ext2 fun i : Fin p.ny × Fin p.nx => fresnelForward cScalar p (ext2 x) (i.1 : ℕ) (i.2 : ℕ)) (j.1 : ℕ) (j.2 : ℕ)
+      = x j :=
+  fourierFilter_backward_inverse p h hc (norm_fresnelTF_eq_one hx hy) x j
+
+/-- … and the propagator built for `z₁` followed by the one built for `z₂` is the one built for `z₁ + z₂`
+(all three by the setter `distance` on the same object).  No sign condition is needed for the transfer-function
+pipeline itself; the property's "same sign" guarantees that the code takes this pipeline for `z₁` and `z₂` whenever it
+takes it for `z₁ + z₂` (`same_sign_same_branch`). -/
+theorem fresnelForward_additive (hx : p.sx = 1) (hy : p.sy = 1) (hc : cutout p = none) (z₁ z₂ : ℚ)
+    (x : Fin p.ny × Fin p.nx → ℂ) (j : Fin p.ny × Fin p.nx) :
+    fresnelForward cScalar (withParam p (.distance z₂))
+        (ext2 fun i : Fin p.ny × Fin p.nx =>
+          fresnelForward cScalar (withParam p (.distance z₁)) (ext2 x) (i.1 : ℕ) (i.2 : ℕ)) (j.1 : ℕ) (j.2 : ℕ)
+      = fresnelForward cScalar (withParam p (.distance (z₁ + z₂))) (ext2 x) (j.1 : ℕ) (j.2 : ℕ) := by
+  show fourierFilter cScalar p (fresnelTF cScalar (withParam p (.distance z₂)))
+        (ext2 fun i : Fin p.ny × Fin p.nx =>
+          fourierFilter cScalar p (fresnelTF cScalar (withParam p (.distance z₁))) (ext2 x) (i.1 : ℕ) (i.2 : ℕ))
+        (j.1 : ℕ) (j.2 : ℕ)
+      = fourierFilter cScalar p (fresnelTF cScalar (withParam p (.distance (z₁ + z₂)))) (ext2 x) (j.1 : ℕ) (j.2 : ℕ)
+  rw [fourierFilter_comp p h hc]
+  congr 1
+  funext a b
+  exact fresnelTF_mul hx hy z₁ z₂ a b
+
+omit h in
+/-- Propagating by `-z` forward is propagating by `+z` backward: the propagator built for `-z` (setter `distance`),
+`.forward`, and the one built for `+z`, `.backward`, are the same function — any padding, any oversampling, any input. -/
+theorem fresnelForward_neg_z_eq_backward (X : ℕ → ℕ → ℂ) :
+    fresnelForward cScalar (withParam p (.distance (-p.z))) X = fresnelBackward cScalar p X := by
+  show filterN (my p) (mx p) _ _ _ _ _ _ _ _ _ (fresnelTF cScalar (withParam p (.distance (-p.z)))) X
+    = filterN (my p) (mx p) _ _ _ _ _ _ _ _ _ (fun py px => cScalar.conj (fresnelTF cScalar p py px)) X
+  congr 1
+  funext qy qx
+  exact fresnelTF_neg_z p qy qx
+
+/-! ### the angular-spectrum propagator: the pipeline with `angularTF` (from the executed radicands, op `tfq`) -/
+
+/-- Angular spectrum (repaired, D30): the power never increases — propagating components are unimodular, evanescent ones
+decay with `|z|`; any oversampling, either sign of `z`. -/
+theorem angular_power_nonincreasing_exec (x : Fin p.ny × Fin p.nx → ℂ) :
+    nsq (fun j : Fin p.ny × Fin p.nx => fourierFilter cScalar p (angularTF p) (ext2 x) (j.1 : ℕ) (j.2 : ℕ)) ≤ nsq x :=
+  fourierFilter_power_nonincreasing p h (norm_angularTF_le_one p) x
+
+theorem angular_stokes_power_nonincreasing_exec (w : ℝ) (hw : 0 ≤ w) (S : Fin 4 → ℝ) (hS0 : 0 ≤ S 0)
+    (hphys : S 1 ^ 2 + S 2 ^ 2 + S 3 ^ 2 ≤ S 0 ^ 2) (E : Fin 2 × Fin 2 → Fin p.ny × Fin p.nx → ℂ) :
+    stokesPower w S (fun t (j : Fin p.ny × Fin p.nx) =>
+        fourierFilter cScalar p (angularTF p) (ext2 (E t)) (j.1 : ℕ) (j.2 : ℕ))
+      ≤ stokesPower w S E :=
+  fourierFilter_stokes_power_nonincreasing p h (norm_angularTF_le_one p) w hw S hS0 hphys E
+
+omit h in
+/-- Angular spectrum: forward by `-z` is backward by `+z`, at every frequency, evanescent ones included. -/
+theorem angular_neg_z_eq_backward_exec (X : ℕ → ℕ → ℂ) :
+    fourierFilter cScalar (withParam p (.distance (-p.z))) (angularTF (withParam p (.distance (-p.z)))) X
+      = fourierFilterBackward cScalar p (angularTF p) X := by
+  show filterN (my p) (mx p) _ _ _ _ _ _ _ _ _ (angularTF (withParam p (.distance (-p.z)))) X
+    = filterN (my p) (mx p) _ _ _ _ _ _ _ _ _ (fun py px => cScalar.conj (angularTF p py px)) X
+  congr 1
+  funext qy qx
+  exact angularTF_neg_z p qy qx
+
+end scalar
+
+/-- The branch decision propagating / evanescent is the sign of the executed `radicand`; on the propagating set the
+angular-spectrum sample is unimodular, for both signs of `z` … -/
+theorem angular_sample_unimodular_of_propagating (p : Params) (a b : ℚ) (hr : 0 ≤ radicand p a b) :
+    ‖angSample p.z (evanescentZ p) (radicand p a b)‖ = 1 :=
+  norm_angSample_of_propagating hr
+
+/-- … on the evanescent set it has modulus `exp(-2π |z| √(-radicand)) ≤ 1`, for both signs of `z` (repaired code). -/
+theorem angular_sample_decays_of_evanescent (p : Params) (a b : ℚ) (hr : radicand p a b < 0) :
+    ‖angSample p.z (evanescentZ p) (radicand p a b)‖
+        = Real.exp (-(2 * Real.pi * Real.sqrt (-((radicand p a b : ℚ) : ℝ)) * ((|p.z| : ℚ) : ℝ))) ∧
+      ‖angSample p.z (evanescentZ p) (radicand p a b)‖ ≤ 1 := by
+  refine ⟨?_, norm_angSample_le_one (evanescentZ_nonneg p)⟩
+  rw [norm_angSample_of_evanescent hr]
+  unfold evanescentZ
+  rw [ratAbs_eq_abs]
+
+/-- Unrepaired code (finding D30; `evanescentZOld p = z`): an evanescent component propagated by a negative distance is
+amplified. -/
+theorem Old.angular_sample_grows_of_evanescent (p : Params) (a b : ℚ) (hr : radicand p a b < 0) (hz : p.z < 0) :
+    1 < ‖angSample p.z (evanescentZOld p) (radicand p a b)‖ := by
+  rw [norm_angSample_of_evanescent hr, Real.one_lt_exp_iff]
+  have hR : (0 : ℝ) < -((radicand p a b : ℚ) : ℝ) := by
+    have : ((radicand p a b : ℚ) : ℝ) < 0 := by exact_mod_cast hr
+    linarith
+  have hs : 0 < Real.sqrt (-((radicand p a b : ℚ) : ℝ)) := Real.sqrt_pos.mpr hR
+  have hz' : ((evanescentZOld p : ℚ) : ℝ) < 0 := by
+    unfold evanescentZOld
+    exact_mod_cast hz
+  have hpi := Real.pi_pos
+  have : 2 * Real.pi * Real.sqrt (-((radicand p a b : ℚ) : ℝ)) * ((evanescentZOld p : ℚ) : ℝ) < 0 :=
+    mul_neg_of_pos_of_neg (by positivity) hz'
+  linarith
+
+/-- `angSample` at the executed radicand *is* `transfer_function_native` of the angular-spectrum propagator as the code
+writes it (`exp(i k_z z)`, `k_z = √(k² - k⊥²)` conjugated for `z < 0`), at `k = 2πn/λ`, `k⊥ = 2πν`. -/
+theorem angSample_is_native_transfer_function (p : Params) (hl : p.lam ≠ 0) (ν : ℚ × ℚ) :
+    angularAt p ν = angSample p.z (evanescentZ p) (radicand p ν.1 ν.2) :=
+  angularAt_of_radicand p hl ν
+
+/-- The Fresnel transfer function of the executed pipeline *is* the sub-pixel mean (over the executed sample frequencies
+`subFreqs` of the centred pixel) of `transfer_function_native` as the code writes it: `fresnelAt p ν =
+exp(ikz)·exp(-iz k⊥²/2k)` at `k = 2πn/λ`, `k⊥ = 2πν`. -/
+theorem fresnelTF_is_sampled_native_transfer_function (p : Params) (hn : p.n ≠ 0) (hl : p.lam ≠ 0) (qy qx : ℕ) :
+    fresnelTF cScalar p qy qx
+      = listMean ((subFreqs p (ifftshiftIdx (mx p) qx) (ifftshiftIdx (my p) qy)).map (fresnelAt p)) := by
+  unfold fresnelTF fresnelSubTurns
+  rw [meanTurns_c, List.map_map]
+  congr 1
+  apply List.map_congr_left
+  rintro ⟨a, b⟩ _
+  simp only [Function.comp]
+  rw [expT_frac, expT_eq_cexp]
+  exact (fresnelD_eq_turns p a b hn hl).symm
+
+/-- The hypotheses of the `fresnelForward_*` theorems are satisfiable together (8×6, `zero_padding = 1`,
+`num_oversampling = 1`, inside the stated regime). -/
+example : ∃ p : Params, padOK p = true ∧ p.sx = 1 ∧ p.sy = 1 ∧ cutout p = none ∧ statedRegime p = true :=
+  ⟨{ kind := .fresnel, nx := 8, ny := 6, dx := 1/4, dy := 1/4, lam := 1/16, z := 1/2, n := 1, qx := 1, qy := 1,
+     sx := 1, sy := 1 }, by decide +kernel⟩
+
+/-- … and both signs of the radicand occur on one grid (8×8, pixel `5λ/8`): DC is propagating, the corner evanescent. -/
+example : ∃ p : Params, 0 ≤ radicand p 0 0 ∧ radicand p (nu p.dx (mx p) 0 0) (nu p.dy (my p) 0 0) < 0 ∧ p.z < 0 :=
+  ⟨{ kind := .angular, nx := 8, ny := 8, dx := 5/8, dy := 5/8, lam := 1, z := -1/4, n := 1, qx := 2, qy := 2,
+     sx := 1, sy := 1 }, by decide +kernel⟩
+
+/-! ## dtype / tensor-shape bookkeeping of one `FourierFilter` object: history-independence
+
+`callStep` is `_compute_functions` (driver op `dtypes`, compared with `_transfer_function.dtype`, `internal_array.dtype`,
+`internal_array.shape` and the identity of both arrays after every call of a session on one real object). -/
+
+/-- Whatever the state before, after a call with dtype `dt` and tensor shape `ts` the cached transfer function has dtype
+`dt` and the scratch array has dtype `dt` and tensor shape `ts`. -/
+theorem callStep_state (s : FState) (c : Call) : callStep s c = ⟨some c.dt, some (c.dt, c.ts)⟩ := by
+  obtain ⟨tf, arr⟩ := s
+  unfold callStep tfRecomputed arrRecomputed
+  cases tf <;> cases arr <;> simp <;> grind
+
+/-- **History-independence** (unbounded histories): the state a call leaves behind depends on that call only — not on the
+dtypes and tensor shapes of the calls before it, nor on the state the object started from. -/
+theorem dtype_state_history_independent (s : FState) (l : List Call) (c : Call) :
+    runCalls s (l ++ [c]) = runCalls {} [c] := by
+  unfold runCalls
+  rw [List.foldl_append]
+  simp only [List.foldl_cons, List.foldl_nil]
+  rw [callStep_state, callStep_state]
+
+/-- A cached transfer function is reused only when its dtype is the dtype of the field: whenever the dtype of the field
+differs from that of the previous call the transfer function is recomputed from its source (never re-cast from the cached,
+possibly single-precision, copy). -/
+theorem transfer_function_recomputed_on_dtype_change (s : FState) (c c' : Call) (hd : c.dt ≠ c'.dt) :
+    tfRecomputed (callStep s c) c' = true := by
+  rw [callStep_state]
+  unfold tfRecomputed
+  simpa using hd
+
+/-- … and it is *not* recomputed when the dtype is unchanged, whatever the tensor shapes (the cache is effective). -/
+theorem transfer_function_reused_on_same_dtype (s : FState) (c c' : Call) (hd : c.dt = c'.dt) :
+    tfRecomputed (callStep s c) c' = false := by
+  rw [callStep_state]
+  unfold tfRecomputed
+  simpa using hd
 
 /-! ### what the driver op `filt` computes denotes the complex pipeline
 
@@ -945,28 +630,19 @@ theorem filt_backward_denotes_complex_pipeline (p : Params) (hy : my p = 1 ∨ m
     funext (toC_gKerF hy), funext (toC_gKerF hx), funext (toC_gKerB hy), funext (toC_gKerB hx)]
   simp only [GRat.toC_conj]
 
-/-- **Every internal size**: the driver op `filtp` runs the same `filterP` on formal phase sums (`Fft.PSum`: finite sums of
-`c·exp(2πi t)` with rational `c`, `t`; kernels `pKerF`, `pKerB` are monomials for every `M`).  The complex number its
-output denotes (`PSum.ev`, which the harness evaluates in floating point and compares with the real
-`FourierFilter.forward`) is the complex pipeline of the theorems on the denoted inputs. -/
+/-- **Every internal size**: the driver op `filtp` runs `fourierFilter psumScalar` — the scalar-polymorphic pipeline at the formal
+phase sums (`Fft.PSum`: finite sums of `c·exp(2πi t)` with rational `c`, `t`).  The complex number its output denotes
+(`PSum.ev`, which the harness evaluates in floating point and compares with the real `FourierFilter.forward`) is the *same
+definition* at `cScalar` (the object of the `fourierFilter_*` theorems) on the denoted inputs. -/
 theorem filtp_forward_denotes_complex_pipeline (p : Params) (D x : ℕ → ℕ → Fft.PSum) (ky kx : ℕ) :
-    PSum.ev (filterP p (pKerF (my p)) (pKerF (mx p)) (pKerB (my p)) (pKerB (mx p))
-        (Fft.PSum.ofRat (1 / ((my p * mx p : ℕ) : ℚ))) D x ky kx)
-      = filterP p (kF (my p)) (kF (mx p)) (kB (my p)) (kB (mx p)) (((my p * mx p : ℕ) : ℂ)⁻¹)
-          (fun a b => PSum.ev (D a b)) (fun a b => PSum.ev (x a b)) ky kx := by
-  unfold filterP
-  rw [filterN_map PSum.ev PSum.ev_zero PSum.ev_add PSum.ev_mul, ev_scale,
-    funext (ev_pKerF (my p)), funext (ev_pKerF (mx p)), funext (ev_pKerB (my p)), funext (ev_pKerB (mx p))]
+    PSum.ev (fourierFilter psumScalar p D x ky kx)
+      = fourierFilter cScalar p (fun a b => PSum.ev (D a b)) (fun a b => PSum.ev (x a b)) ky kx :=
+  ev_fourierFilter p D x ky kx
 
 theorem filtp_backward_denotes_complex_pipeline (p : Params) (D x : ℕ → ℕ → Fft.PSum) (ky kx : ℕ) :
-    PSum.ev (filterPBackward psumConj p (pKerF (my p)) (pKerF (mx p)) (pKerB (my p)) (pKerB (mx p))
-        (Fft.PSum.ofRat (1 / ((my p * mx p : ℕ) : ℚ))) D x ky kx)
-      = filterPBackward (starRingEnd ℂ) p (kF (my p)) (kF (mx p)) (kB (my p)) (kB (mx p)) (((my p * mx p : ℕ) : ℂ)⁻¹)
-          (fun a b => PSum.ev (D a b)) (fun a b => PSum.ev (x a b)) ky kx := by
-  unfold filterPBackward filterNBackward
-  rw [filterN_map PSum.ev PSum.ev_zero PSum.ev_add PSum.ev_mul, ev_scale,
-    funext (ev_pKerF (my p)), funext (ev_pKerF (mx p)), funext (ev_pKerB (my p)), funext (ev_pKerB (mx p))]
-  simp only [ev_psumConj]
+    PSum.ev (fourierFilterBackward psumScalar p D x ky kx)
+      = fourierFilterBackward cScalar p (fun a b => PSum.ev (D a b)) (fun a b => PSum.ev (x a b)) ky kx :=
+  ev_fourierFilterBackward p D x ky kx
 
 /-- The inputs of `filtp` (Gaussian rationals written as `a + b·exp(2πi/4)`) denote themselves. -/
 theorem filtp_input_denotes (g : GRat) : PSum.ev (psumOfGRat g) = GRat.toC g := ev_psumOfGRat g
@@ -981,19 +657,6 @@ local notation "runMF" => filterMP p (kF (my p)) (kF (mx p)) (kB (my p)) (kB (mx
 local notation "runMB" => filterMPBackward (starRingEnd ℂ) p (kF (my p)) (kF (mx p)) (kB (my p)) (kB (mx p))
   (((my p * mx p : ℕ) : ℂ)⁻¹)
 
-/-- **Bridge**: `filterM` with the DFT of C01/C02 and the executable cut-out is the executable pipeline `filterMP`. -/
-theorem filterM_dft2_eq_filterMP (D : Fin (my p) × Fin (mx p) → Fin n → Fin n → ℂ)
-    (x : Fin n → Fin p.ny × Fin p.nx → ℂ) :
-    filterM (dftPair2 (my p) (mx p) (my_pos h) (mx_pos h)) (cutoutEmb p h) D x
-      = fun t j => runMF (fun py px i k => ext2 (fun m => D m i k) py px) (fun k => ext2 (x k)) t (j.1 : ℕ) (j.2 : ℕ) :=
-  funext fun t => funext fun j => filterM_dft2_apply p h D x t j
-
-theorem filterMBackward_dft2_eq_filterMPBackward (D : Fin (my p) × Fin (mx p) → Fin n → Fin n → ℂ)
-    (x : Fin n → Fin p.ny × Fin p.nx → ℂ) :
-    filterMBackward (dftPair2 (my p) (mx p) (my_pos h) (mx_pos h)) (cutoutEmb p h) D x
-      = fun t j => runMB (fun py px i k => ext2 (fun m => D m i k) py px) (fun k => ext2 (x k)) t (j.1 : ℕ) (j.2 : ℕ) :=
-  funext fun t => funext fun j => filterMBackward_dft2_apply p h D x t j
-
 /-- `backward` (the pipeline with the conjugate-transposed matrices) is the exact adjoint of `forward`: the executed
 matrix pipeline, any matrices, any padding, any number of components. -/
 theorem filterMP_adjoint (D : Fin (my p) × Fin (mx p) → Fin n → Fin n → ℂ) (x y : Fin n → Fin p.ny × Fin p.nx → ℂ) :
@@ -1004,96 +667,57 @@ theorem filterMP_adjoint (D : Fin (my p) × Fin (mx p) → Fin n → Fin n → 
   rw [filterM_dft2_eq_filterMP p h, filterMBackward_dft2_eq_filterMPBackward p h] at ha
   exact ha
 
+/-- The same about the scalar-polymorphic definitions the driver op `filtmp` runs (`fourierFilterM` /
+`fourierFilterMBackward` at `cScalar`): matrix transfer function × vector field, `backward` = adjoint. -/
+theorem fourierFilterM_adjoint (D : Fin (my p) × Fin (mx p) → Fin n → Fin n → ℂ) (x y : Fin n → Fin p.ny × Fin p.nx → ℂ) :
+    ∑ t, ip (y t) (fun j => fourierFilterM cScalar p (fun py px i k => ext2 (fun m => D m i k) py px)
+        (fun k => ext2 (x k)) t (j.1 : ℕ) (j.2 : ℕ))
+      = ∑ t, ip (fun j => fourierFilterMBackward cScalar p (fun py px i k => ext2 (fun m => D m i k) py px)
+          (fun k => ext2 (y k)) t (j.1 : ℕ) (j.2 : ℕ)) (x t) := by
+  rw [fourierFilterM_c, fourierFilterMBackward_c]
+  exact filterMP_adjoint p h D x y
+
+/-- Matrix transfer function × matrix-valued (Jones-matrix) field, `field_dot(D, E)` column by column: `backward` is the
+adjoint of `forward` in the Frobenius inner product (the family of seeded regression C02-9). -/
+theorem fourierFilterM_adjoint_matrix_field {k : ℕ} (D : Fin (my p) × Fin (mx p) → Fin n → Fin n → ℂ)
+    (x y : Fin n → Fin k → Fin p.ny × Fin p.nx → ℂ) :
+    ∑ l, ∑ t, ip (y t l) (fun j => fourierFilterM cScalar p (fun py px i k => ext2 (fun m => D m i k) py px)
+        (fun i => ext2 (x i l)) t (j.1 : ℕ) (j.2 : ℕ))
+      = ∑ l, ∑ t, ip (fun j => fourierFilterMBackward cScalar p (fun py px i k => ext2 (fun m => D m i k) py px)
+          (fun i => ext2 (y i l)) t (j.1 : ℕ) (j.2 : ℕ)) (x t l) :=
+  Finset.sum_congr rfl fun l _ => fourierFilterM_adjoint p h D (fun i => x i l) (fun i => y i l)
+
 end pipelineM
 
-/-- What `filtmp` computes denotes the complex matrix pipeline (every internal size, every `n`). -/
+/-- What `filtmp` computes (`fourierFilterM psumScalar`) denotes the same definition at `cScalar` (every internal size,
+every `n`). -/
 theorem filtmp_forward_denotes_complex_pipeline {n : ℕ} (p : Params) (D : ℕ → ℕ → Fin n → Fin n → Fft.PSum)
     (x : Fin n → ℕ → ℕ → Fft.PSum) (t : Fin n) (ky kx : ℕ) :
-    PSum.ev (filterMP p (pKerF (my p)) (pKerF (mx p)) (pKerB (my p)) (pKerB (mx p))
-        (Fft.PSum.ofRat (1 / ((my p * mx p : ℕ) : ℚ))) D x t ky kx)
-      = filterMP p (kF (my p)) (kF (mx p)) (kB (my p)) (kB (mx p)) (((my p * mx p : ℕ) : ℂ)⁻¹)
-          (fun a b i k => PSum.ev (D a b i k)) (fun k a b => PSum.ev (x k a b)) t ky kx := by
-  unfold filterMP
-  rw [filterMN_map PSum.ev PSum.ev_zero PSum.ev_add PSum.ev_mul, ev_scale,
-    funext (ev_pKerF (my p)), funext (ev_pKerF (mx p)), funext (ev_pKerB (my p)), funext (ev_pKerB (mx p))]
+    PSum.ev (fourierFilterM psumScalar p D x t ky kx)
+      = fourierFilterM cScalar p (fun a b i k => PSum.ev (D a b i k)) (fun k a b => PSum.ev (x k a b)) t ky kx :=
+  ev_fourierFilterM p D x t ky kx
 
 theorem filtmp_backward_denotes_complex_pipeline {n : ℕ} (p : Params) (D : ℕ → ℕ → Fin n → Fin n → Fft.PSum)
     (x : Fin n → ℕ → ℕ → Fft.PSum) (t : Fin n) (ky kx : ℕ) :
-    PSum.ev (filterMPBackward psumConj p (pKerF (my p)) (pKerF (mx p)) (pKerB (my p)) (pKerB (mx p))
-        (Fft.PSum.ofRat (1 / ((my p * mx p : ℕ) : ℚ))) D x t ky kx)
-      = filterMPBackward (starRingEnd ℂ) p (kF (my p)) (kF (mx p)) (kB (my p)) (kB (mx p)) (((my p * mx p : ℕ) : ℂ)⁻¹)
-          (fun a b i k => PSum.ev (D a b i k)) (fun k a b => PSum.ev (x k a b)) t ky kx := by
-  unfold filterMPBackward filterMNBackward
-  rw [filterMN_map PSum.ev PSum.ev_zero PSum.ev_add PSum.ev_mul, ev_scale,
-    funext (ev_pKerF (my p)), funext (ev_pKerF (mx p)), funext (ev_pKerB (my p)), funext (ev_pKerB (mx p))]
-  unfold conjT
-  simp only [ev_psumConj]
+    PSum.ev (fourierFilterMBackward psumScalar p D x t ky kx)
+      = fourierFilterMBackward cScalar p (fun a b i k => PSum.ev (D a b i k)) (fun k a b => PSum.ev (x k a b)) t ky kx :=
+  ev_fourierFilterMBackward p D x t ky kx
 
-/-! ### the Fresnel propagator, computed exactly by the driver (op `prop`) -/
+/-- **The driver's exact Fresnel propagation** (op `prop`: `fresnelForward psumScalar` / `fresnelBackward psumScalar`) denotes
+`fresnelForward cScalar` / `fresnelBackward cScalar` — the object of the `fresnel_*` theorems above — of the denoted input. -/
+theorem prop_forward_denotes_fresnelForward (p : Params) (X : ℕ → ℕ → Fft.PSum) (ky kx : ℕ) :
+    PSum.ev (fresnelForward psumScalar p X ky kx) = fresnelForward cScalar p (fun a b => PSum.ev (X a b)) ky kx :=
+  ev_fresnelForward p X ky kx
 
-/-- **The driver's exact Fresnel propagation denotes `propagate`**: on the transfer-function branch, the complex number
-denoted by `filterP` on formal phase sums with the transfer function `fresnelTFP` is `propagate p h Dir` of the denoted
-input, pixel by pixel. -/
-theorem prop_denotes_propagate (p : Params) (h : padOK p = true) (hk : p.kind = .fresnel) (hn : p.n ≠ 0) (hl : p.lam ≠ 0)
-    (hb : impulseBranch p = false) (Dir : Fin (my p) × Fin (mx p) → ℂ) (X : ℕ → ℕ → Fft.PSum) (j : Fin p.ny × Fin p.nx) :
-    PSum.ev (filterP p (pKerF (my p)) (pKerF (mx p)) (pKerB (my p)) (pKerB (mx p))
-        (Fft.PSum.ofRat (1 / ((my p * mx p : ℕ) : ℚ))) (fresnelTFP p) X (j.1 : ℕ) (j.2 : ℕ))
-      = propagate p h Dir (fun i => PSum.ev (X (i.1 : ℕ) (i.2 : ℕ))) j := by
-  have e1 : PSum.ev (filterP p (pKerF (my p)) (pKerF (mx p)) (pKerB (my p)) (pKerB (mx p))
-        (Fft.PSum.ofRat (1 / ((my p * mx p : ℕ) : ℚ))) (fresnelTFP p) X (j.1 : ℕ) (j.2 : ℕ))
-      = filterP p (kF (my p)) (kF (mx p)) (kB (my p)) (kB (mx p)) (((my p * mx p : ℕ) : ℂ)⁻¹)
-          (fun a b => PSum.ev (fresnelTFP p a b)) (fun a b => PSum.ev (X a b)) (j.1 : ℕ) (j.2 : ℕ) := by
-    unfold filterP
-    rw [filterN_map PSum.ev PSum.ev_zero PSum.ev_add PSum.ev_mul, ev_scale,
-      funext (ev_pKerF (my p)), funext (ev_pKerF (mx p)), funext (ev_pKerB (my p)), funext (ev_pKerB (mx p))]
-  rw [e1]
-  unfold propagate
-  rw [filter_dft2_apply]
-  unfold filterP
-  apply filterN_congr
-  · intro a ha b hb'
-    unfold ext2
-    rw [dif_pos ⟨ha, hb'⟩, modelD_of_tf hb]
-    show _ = sampledTF p (ifftshiftIdx (my p) a) (ifftshiftIdx (mx p) b)
-    rw [sampledTF_fresnel_eq_turns p hk hn hl]
-    exact ev_psumMeanTurns _
-  · intro a ha b hb'
-    unfold ext2
-    rw [dif_pos ⟨ha, hb'⟩]
-
+theorem prop_backward_denotes_fresnelBackward (p : Params) (X : ℕ → ℕ → Fft.PSum) (ky kx : ℕ) :
+    PSum.ev (fresnelBackward psumScalar p X ky kx) = fresnelBackward cScalar p (fun a b => PSum.ev (X a b)) ky kx :=
+  ev_fresnelBackward p X ky kx
 
 /-- The hypotheses of the pipeline theorems are satisfiable with a genuinely padded, exactly executable size
 (`2×3` padded to `4×4`, the kernels of which are powers of `i`: a case the driver op `filt` runs). -/
 example : ∃ p : Params, padOK p = true ∧ my p = 4 ∧ mx p = 4 ∧ cutout p = some (1, 4, 1, 3) :=
   ⟨{ kind := .fresnel, nx := 2, ny := 3, dx := 1/4, dy := 1/4, lam := 1/16, z := 1/2, n := 1, qx := 2, qy := 4/3,
      sx := 1, sy := 1 }, by decide +kernel⟩
-
-section dft1
-variable (M : ℕ) (hM : 0 < M)
-
-theorem filter_linear_dft1 (e : ι → Fin M) (D : Fin M → ℂ) (a b : ℂ) (x y : ι → ℂ) :
-    filter (dftPair M hM) e D (a • x + b • y)
-      = a • filter (dftPair M hM) e D x + b • filter (dftPair M hM) e D y :=
-  filter_linear _ e D a b x y
-
-theorem filter_adjoint_dft1 (e : ι → Fin M) (D : Fin M → ℂ) (x y : ι → ℂ) :
-    ip y (filter (dftPair M hM) e D x) = ip (filterBackward (dftPair M hM) e D y) x :=
-  filter_adjoint _ e D x y
-
-theorem power_nonincreasing_dft1 {e : ι → Fin M} (he : Function.Injective e) {D : Fin M → ℂ}
-    (hD : ∀ m, ‖D m‖ ≤ 1) (x : ι → ℂ) : nsq (filter (dftPair M hM) e D x) ≤ nsq x :=
-  power_nonincreasing _ he hD x
-
-theorem filter_unitary_dft1 {e : ι → Fin M} (he : Function.Bijective e) {D : Fin M → ℂ}
-    (hD : ∀ m, ‖D m‖ = 1) (x : ι → ℂ) : nsq (filter (dftPair M hM) e D x) = nsq x :=
-  filter_unitary _ he hD x
-
-theorem filter_backward_inverse_dft1 {e : ι → Fin M} (he : Function.Bijective e) {D : Fin M → ℂ}
-    (hD : ∀ m, ‖D m‖ = 1) (x : ι → ℂ) :
-    filterBackward (dftPair M hM) e D (filter (dftPair M hM) e D x) = x :=
-  filter_backward_inverse _ he hD x
-
-end dft1
 
 /-- `ifft (fft x) = x` for the DFT specification of `Model/FftIndex.lean`, any length `M > 0`. -/
 theorem ifft_fft_dft1 (M : ℕ) (hM : 0 < M) (x : Fin M → ℂ) (p : Fin M) :
